@@ -29,6 +29,7 @@ var (
 	fFinding  = flag.String("sim.finding", "", "known-finding configuration to build")
 	fFeat     = flag.String("sim.features", "", "feature overrides")
 	fBudget   = flag.Duration("sim.budget", 0, "stop starting new runs after this much wall time")
+	fTraceFile = flag.String("sim.tracefile", "", "write the schedule trace line by line to this file (survives a crash)")
 	fWatchdog = flag.Duration("sim.watchdog", 120*time.Second, "wall-clock limit for a single run")
 )
 
@@ -65,6 +66,12 @@ func runOne(t *testing.T, cfg scen.Config, tp *tape.Tape, seed uint64) (res scen
 		}()
 		synctest.Test(t, func(t *testing.T) {
 			s = sched.New(tp)
+			if *fTraceFile != "" {
+				if f, err := os.OpenFile(*fTraceFile, os.O_CREATE|os.O_TRUNC|os.O_WRONLY, 0o644); err == nil {
+					s.TraceFile = f
+					defer f.Close()
+				}
+			}
 			simhook.Register(s)
 			defer simhook.Register(nil)
 			start := time.Now()
